@@ -17,6 +17,10 @@ import (
 )
 
 func startNode() (gen.Node, gen.PID) {
+	// a Call whose reply is dropped (e.g. the caller runs before spawn has stored it in the process
+	// table, so RouteSendResponse does not find it) must end by its timer well within the
+	// scheduler's stall limit
+	gen.DefaultRequestTimeout = 1
 	opts := gen.NodeOptions{}
 	opts.Network.Mode = gen.NetworkModeDisabled
 	opts.Log.DefaultLogger.Disable = true
@@ -47,6 +51,9 @@ func genMsg(r *rand.Rand, id int) Msg {
 		m.Beh = "panic"
 	case 2, 3:
 		m.Beh = "call"
+	case 4:
+		// exit signal from the node core (= the parent of a process spawned by the node): Urgent queue
+		m.Beh, m.Reason, m.Q = "exit", 4+r.Intn(3), 0
 	}
 	return m
 }
@@ -61,8 +68,8 @@ func genCase(r *rand.Rand) Case {
 	for i := r.Intn(3); i > 0; i-- {
 		m := genMsg(r, id)
 		m.Q = 2
-		if m.Beh == "call" {
-			m.Beh = "ok"
+		if m.Beh == "call" || m.Beh == "exit" {
+			m.Beh, m.Q = "ok", 2
 		}
 		c.Self = append(c.Self, m)
 		id++
@@ -71,7 +78,11 @@ func genCase(r *rand.Rand) Case {
 	for i := 0; i < ns; i++ {
 		t := Thread{Kind: "S", ByName: c.Named && r.Intn(2) == 0}
 		for j := 1 + r.Intn(2); j > 0; j-- {
-			t.Msgs = append(t.Msgs, genMsg(r, id))
+			m := genMsg(r, id)
+			if t.ByName && m.Beh == "exit" {
+				m.Beh, m.Q = "ok", 2 // exit signals are addressed by pid
+			}
+			t.Msgs = append(t.Msgs, m)
 			id++
 		}
 		c.Threads = append(c.Threads, t)
@@ -101,6 +112,7 @@ func tinyConfigs() []Case {
 		{InitOK: true, Named: true, Threads: []Thread{{Kind: "S", ByName: true, Msgs: []Msg{ok(1, 1, 0), ok(2, 2, 0)}}, {Kind: "S", Msgs: []Msg{{ID: 3, Q: 2, Beh: "call"}}}}},
 		{InitOK: true, Threads: []Thread{{Kind: "S", Msgs: []Msg{{ID: 1, Q: 2, Beh: "call", N: 0}}}, {Kind: "K"}, {Kind: "K"}}},
 		{InitOK: true, Threads: []Thread{{Kind: "S", Msgs: []Msg{{ID: 1, Q: 2, Beh: "panic"}}}, {Kind: "S", Msgs: []Msg{ok(2, 2, 0)}}, {Kind: "K"}}},
+		{InitOK: true, Threads: []Thread{{Kind: "S", Msgs: []Msg{ok(1, 2, 1)}}, {Kind: "S", Msgs: []Msg{{ID: 2, Q: 0, Beh: "exit", Reason: 4}}}, {Kind: "K"}}},
 		{InitOK: true, Limit: 1, Fallback: true, Threads: []Thread{{Kind: "S", Msgs: []Msg{ok(1, 2, 0), ok(2, 2, 0)}}, {Kind: "S", Msgs: []Msg{ok(3, 2, 0)}}}},
 		{InitOK: true, Limit: 1, Self: []Msg{ok(1, 2, 0), ok(2, 2, 0)}, Threads: []Thread{{Kind: "S", Msgs: []Msg{ok(3, 2, 0)}}}},
 	}
@@ -199,6 +211,41 @@ func main() {
 			}
 			emit(o, rp.Case, runCase(node, hp, rp.Case), "corpus:"+fn)
 		}
+	case "around":
+		// local search around given schedules (replay file holding {"cases":[...]}): every schedule that
+		// deviates from one of them at one position to any other enabled thread
+		b, err := os.ReadFile(*replay)
+		if err != nil {
+			panic(err)
+		}
+		var rp struct {
+			Cases []Case `json:"cases"`
+		}
+		if err := json.Unmarshal(b, &rp); err != nil {
+			panic(err)
+		}
+		seen := map[string]bool{}
+		for _, base := range rp.Cases {
+			res, enabledAt := runCaseEnabled(node, hp, base)
+			full := res.Full
+			for i := 0; i < len(full) && len(o.Cases) < *n; i++ {
+				for _, alt := range enabledAt[i] {
+					if alt == full[i] {
+						continue
+					}
+					c := base
+					c.Sched = append(append([]int{}, full[:i]...), alt)
+					c.Policy = "nonpreempt"
+					r2 := runCase(node, hp, c)
+					key := fmt.Sprint(r2.Full)
+					if seen[key] {
+						continue
+					}
+					seen[key] = true
+					emit(o, c, r2, "around")
+				}
+			}
+		}
 	case "delayed":
 		runDelayed(node, *n, o)
 	case "meta":
@@ -238,48 +285,60 @@ func main() {
 			}
 		}
 	case "dfs":
-		// stateless exploration with iterative preemption bounding (CHESS style): re-run with a
-		// prefix, complete without preemption (keep the running thread, else lowest), branch on every
-		// alternative enabled thread after the prefix whose prefix stays within the bound.
-		per := *n / len(tinyConfigs())
-		for ci, base := range tinyConfigs() {
+		// Deviation enumeration (stateless): for each tiny configuration and each base order
+		// (non-preemptive: lowest first / highest first / goroutines of the code under test first) run the
+		// base schedule, then every schedule that deviates from it at ONE position to ANY other enabled
+		// thread (depth 1, complete), and - budget permitting, -preempt 2 - at two positions.
+		cfgs := tinyConfigs()
+		per := *n / len(cfgs)
+		bases := []string{"nonpreempt", "nonpreempt:highest", "nonpreempt:dynfirst"}
+		for ci, base := range cfgs {
 			runs := 0
-			exhaustedUpTo := -1
 			seen := map[string]bool{}
-			for b := 0; b <= *bound && runs < per; b++ {
-				stack := [][]int{{}}
-				for len(stack) > 0 && runs < per {
-					prefix := stack[len(stack)-1]
-					stack = stack[:len(stack)-1]
-					c := base
-					c.Sched = prefix
-					c.Policy = "nonpreempt"
-					res, enabledAt := runCaseEnabled(node, hp, c)
-					key := fmt.Sprint(res.Full)
-					if !seen[key] {
-						seen[key] = true
-						runs++
-						emit(o, c, res, fmt.Sprintf("dfs%d", ci))
-					}
-					for i := len(res.Full) - 1; i >= len(prefix); i-- {
-						for _, alt := range enabledAt[i] {
-							if alt == res.Full[i] {
-								continue
-							}
-							np := append(append([]int{}, res.Full[:i]...), alt)
-							if preemptions(enabledAt, np, len(np)-1) > b {
-								continue
-							}
-							stack = append(stack, np)
-						}
-					}
+			complete1 := true
+			type item struct {
+				prefix []int
+				policy string
+				depth  int
+			}
+			var queue []item
+			for _, b := range bases {
+				queue = append(queue, item{nil, b, 0})
+			}
+			for len(queue) > 0 {
+				if runs >= per {
+					complete1 = false
+					break
 				}
-				if len(stack) == 0 {
-					exhaustedUpTo = b
+				it := queue[0]
+				queue = queue[1:]
+				c := base
+				c.Sched = it.prefix
+				c.Policy = it.policy
+				res, enabledAt := runCaseEnabled(node, hp, c)
+				key := fmt.Sprint(res.Full)
+				if !seen[key] {
+					seen[key] = true
+					runs++
+					emit(o, c, res, fmt.Sprintf("dfs%d", ci))
+				}
+				if it.depth >= *bound {
+					continue
+				}
+				for i := len(it.prefix); i < len(res.Full); i++ {
+					for _, alt := range enabledAt[i] {
+						if alt == res.Full[i] {
+							continue
+						}
+						np := append(append([]int{}, res.Full[:i]...), alt)
+						queue = append(queue, item{np, it.policy, it.depth + 1})
+					}
 				}
 			}
 			o.Stats[fmt.Sprintf("dfs%d-runs", ci)] = runs
-			o.Stats[fmt.Sprintf("dfs%d-exhausted-preemption-bound", ci)] = exhaustedUpTo
+			if complete1 {
+				o.Stats[fmt.Sprintf("dfs%d-complete-to-depth", ci)] = *bound
+			}
 		}
 	}
 	o.Write(*out)
